@@ -42,10 +42,11 @@ fn fwd(op: &Op, _ctx: &dyn Context, operands: &mut dyn CoordinateSet) -> usize {
             let (lon, lat) = operands.xy(i);
             let (sin_lon, cos_lon) = (lon - lon_0).sin_cos();
 
-            let q = ancillary::qs(lat.sin(), e);
-            // At the pole itself, rounding leaves a residue of either sign in qp -+ q
-            let q = qp + sign * q;
-            let rho = if q >= 1e-15 { a * q.sqrt() } else { 0.0 };
+            // qs is odd: evaluated that way it cancels qp exactly at either pole, where
+            // rounding would otherwise leave a residue (of either sign) under the root
+            let s = lat.sin();
+            let q = qp + sign * ancillary::qs(s.abs(), e).copysign(s);
+            let rho = if q > 0.0 { a * q.sqrt() } else { 0.0 };
 
             let easting = x_0 + rho * sin_lon;
             let northing = y_0 + sign * rho * cos_lon;
